@@ -77,3 +77,22 @@ M("C13", "B", "cascade as tuple comparison", BATCH,
   "        if (year, month, day) >= (2025, 6, 18):\n")
 M("C13", "B", "cascade as nested ifs", BATCH, "        elif year == 2025 and month == 6 and day >= 18:\n", "        elif year == 2025 and month == 6 and not day < 18:\n")
 M("C13", "B", "rename parts variable", BATCH, "        version_parts = protocol_version.split(\"-\")\n        if len(version_parts) != 3:", "        vp = protocol_version.split(\"-\")\n        version_parts = vp\n        if len(vp) != 3:")
+
+# ------------------------------------------------------------------------------ C19
+M("C19", "V", "expiry >=", MEMORY, "if now - session.last_activity > max_age", "if now - session.last_activity >= max_age", "R4")
+M("C19", "V", "expiry by created_at", MEMORY, "if now - session.last_activity > max_age", "if now - session.created_at > max_age", "R4")
+M("C19", "V", "list returns the live dict", MEMORY, "        return self.sessions.copy()\n", "        return self.sessions\n", "R5")
+M("C19", "V", "id truncated", SBASE, '        return str(uuid.uuid4()).replace("-", "")\n', '        return str(uuid.uuid4()).replace("-", "")[:8]\n', "R1")
+M("C19", "V", "id not from uuid4", SBASE, '        return str(uuid.uuid4()).replace("-", "")\n', '        return str(len(getattr(self, "sessions", {})))\n', "R1")
+M("C19", "V", "delete without guard returns True", MEMORY, "        if session_id in self.sessions:\n            del self.sessions[session_id]\n            return True\n        return False\n", "        self.sessions.pop(session_id, None)\n        return True\n", "R3")
+M("C19", "V", "update creates missing session", MEMORY, "        if session_id in self.sessions:\n            self.sessions[session_id].last_activity = time.time()\n            return True\n        return False\n",
+  "        if session_id in self.sessions:\n            self.sessions[session_id].last_activity = time.time()\n            return True\n        self.sessions[session_id] = None\n        return False\n", "R3")
+M("C19", "V", "create swaps version and client info", MEMORY, "            client_info=client_info,\n            protocol_version=protocol_version,\n", "            client_info=client_info,\n            protocol_version=str(client_info),\n", "R2")
+M("C19", "V", "create stores under a different key", MEMORY, "        self.sessions[session_id] = session\n", "        self.sessions[session_id[:16]] = session\n", "R2")
+M("C19", "V", "cleanup deletes everything selected plus clear", MEMORY, "        return len(expired)\n", "        if len(expired) > 10:\n            self.sessions.clear()\n        return len(expired)\n", "R4")
+M("C19", "V", "get refreshes nothing but pops", MEMORY, "        return self.sessions.get(session_id)\n", "        return self.sessions.pop(session_id, None)\n", "R3")
+M("C19", "B", "dict() instead of copy()", MEMORY, "        return self.sessions.copy()\n", "        return dict(self.sessions)\n")
+M("C19", "B", "comprehension as loop", MEMORY,
+  "        expired = [\n            sid\n            for sid, session in self.sessions.items()\n            if now - session.last_activity > max_age\n        ]\n",
+  "        expired = []\n        for sid, session in self.sessions.items():\n            if now - session.last_activity > max_age:\n                expired.append(sid)\n")
+M("C19", "B", "guard inverted", MEMORY, "        if session_id in self.sessions:\n            del self.sessions[session_id]\n            return True\n        return False\n", "        if session_id not in self.sessions:\n            return False\n        del self.sessions[session_id]\n        return True\n")
